@@ -119,6 +119,9 @@ var isoFirstUse = []string{
 func runIso(ctx *core.RunCtx) {
 	g := ctx.Gen
 	n := 2 + g.Choose(3)
+	if ctx.Tier == "thorough" {
+		n = 2 + g.Choose(5)
+	}
 	srcs := make([]string, n)
 	feats := map[string]bool{}
 	for i := range srcs {
